@@ -1,11 +1,8 @@
 """C16 — Flipping image parity reverses rows but moves no pixel on the sky."""
 PROPERTY = "C16"
 LEVEL = "other"
-CONTRACT_MODULES = ["contracts.specfuns", "contracts.lemmas_desc", "contracts.pyramid", "contracts.image", "contracts.merge",
-                    "contracts.pyramidio", "contracts.study", "contracts.parallel", "contracts.multitan", "contracts.parity"]
-FUNCTIONS = ["toasty.image._wcs_to_parity_sign", "toasty.image._flip_wcs_parity", "toasty.image.Image.flip_parity",
-             "toasty.image.ImageDescription.flip_parity", "toasty.image.Image.ensure_negative_parity",
-             "toasty.image.ImageDescription.ensure_negative_parity"]
+CONTRACT_MODULES = ['contracts.specfuns', 'contracts.lemmas_desc', 'contracts.pyramid', 'contracts.image', 'contracts.merge', 'contracts.pyramidio', 'contracts.study', 'contracts.parallel', 'contracts.multitan', 'contracts.parity']
+FUNCTIONS = ['toasty.image._wcs_to_parity_sign', 'toasty.image._flip_wcs_parity', 'toasty.image.Image.flip_parity', 'toasty.image.ImageDescription.flip_parity', 'toasty.image.Image.ensure_negative_parity', 'toasty.image.ImageDescription.ensure_negative_parity', 'toasty.multi_tan.MultiTanProcessor._tile_serial', 'toasty.multi_tan._mp_tile_worker']
 LEMMAS = []
 SLOW = ()
 TRUSTED_BASE = ["pyvc VC generator; z3 (non-linear real arithmetic)/cvc5",
